@@ -3,6 +3,7 @@ import math
 
 DAYS_PER_MONTH = [31, 28, 31, 30, 31, 30, 31, 31, 30, 31, 30, 31]
 DAYS_1900 = 2
+DAYS_MAX = 2958465
 MILLIS_PER_DAY = 24 * 60 * 60 * 1000
 
 
@@ -40,6 +41,8 @@ def to_date(oadate):
     if millis >= MILLIS_PER_DAY:
         days += 1
         millis -= MILLIS_PER_DAY
+    if days < DAYS_1900 or days > DAYS_MAX:
+        raise ValueError("day number out of range")
     value = days - DAYS_1900
     year = 1900
     while value >= year_days(year):
